@@ -46,13 +46,23 @@ def gen_case(rng, tier):
             boundary, kind = b, kind + '+b'
     return dict(sig=sig, fs=fs, f_range=(lo, hi), boundary=boundary,
                 first_extrema=[None, 'peak', 'trough'][int(rng.integers(0, 3))], filter_kwargs=fk,
-                pad=pad, family=kind, history=[None, None, {'n_cycles': 1}, {'n_seconds': 0.5 / hi}, {'n_cycles': 9}][int(rng.integers(0, 5))], sig_view=[None, None, None, 'strided', 'readonly', 'reversed'][int(rng.integers(0, 6))])
+                pad=pad, family=kind, arg_types=[None, None, 'numpy', 'ints'][int(rng.integers(0, 4))], history=[None, None, {'n_cycles': 1}, {'n_seconds': 0.5 / hi}, {'n_cycles': 9}][int(rng.integers(0, 5))], sig_view=[None, None, None, 'strided', 'readonly', 'reversed'][int(rng.integers(0, 6))])
 
 
 def one(sh, case, driver='generated'):
     from bycycle.cyclepoints import find_extrema
     import copy
     kw = {k: copy.deepcopy(case[k]) for k in ('boundary', 'first_extrema', 'filter_kwargs', 'pad')}
+    how = case.get('arg_types')
+    if how == 'numpy':
+        # the same settings as NumPy scalars (rows of an option table, np.arange / boolean arrays of a sweep)
+        kw['pad'], kw['boundary'] = np.bool_(kw['pad']), np.int64(kw['boundary'])
+        kw['filter_kwargs'] = pipeline.retyped(kw['filter_kwargs'], 'numpy')
+    elif how == 'ints':
+        kw['pad'] = int(kw['pad'])
+    fs_arg = np.float64(case['fs']) if how == 'numpy' else (int(case['fs']) if how == 'ints' and float(case['fs']).is_integer() else case['fs'])
+    if how:
+        sh.note('settings_as=' + how)
     vs = []
     w0 = attach.COUNTS['C02:windows']
     t0 = attach.COUNTS['C02:windows_with_ties']
@@ -69,7 +79,7 @@ def one(sh, case, driver='generated'):
             sh.note('earlier_call_raised')
     try:
         with quiet():
-            res = find_extrema(pipeline.as_view(case['sig'], case.get('sig_view')), case['fs'], tuple(case['f_range']), **kw)
+            res = find_extrema(pipeline.as_view(case['sig'], case.get('sig_view')), fs_arg, tuple(case['f_range']), **kw)
     except Exception as e:
         # totality inside the domain: the reference finds >= 2 closed half-waves of each kind
         try:
